@@ -102,6 +102,14 @@ def gen(tier, seed):
         cmds = ["blocks_image %d %d %s" % (T, cut, hexs) for T in (1, 2, 3, 8)]
         cases.append(Case("img%d" % k, cmds, {"kind": "image", "cut": cut, "S": S}))
         k += 1
+    # many blocks: hundreds of tiny block builders overlap in time (shared-state bugs in the builders show here)
+    for j in range(2 if not big else 10):
+        n = 1500 if j % 2 == 0 else 2500
+        S = sorted(set("".join(rnd.choice("abcdefgh") for _ in range(rnd.choice([4, 5, 6, 9]))) for _ in range(n)))
+        cut = rnd.choice([8, 16, 24])
+        hexs = " ".join(x.encode().hex() for x in S)
+        cmds = ["blocks_image %d %d %s" % (T, cut, hexs) for T in (1, 8, 3, 2)]
+        cases.append(Case("bigimg%d" % j, cmds, {"kind": "image", "cut": cut, "S": S}))
     return cases
 
 
